@@ -218,6 +218,7 @@ struct Finding {
 }
 
 struct SeqOutcome {
+    refused_probed: usize,
     findings: Vec<Finding>,
     served: usize,
     refused: usize,
@@ -275,7 +276,7 @@ async fn run_seq(seq: &Seq) -> SeqOutcome {
     // are compared in canonical form there (which of the two spellings the router passes on is not
     // for this check to say)
     let canon = |a: SocketAddr| if seq.dual_stack { SocketAddr::new(a.ip().to_canonical(), a.port()) } else { a };
-    let mut o = SeqOutcome { findings: vec![], served: 0, refused: 0, unserved_invalid: 0, addresses_checked: 0, trace: vec![], inconclusive: vec![] };
+    let mut o = SeqOutcome { refused_probed: 0, findings: vec![], served: 0, refused: 0, unserved_invalid: 0, addresses_checked: 0, trace: vec![], inconclusive: vec![] };
     let mut admitted: HashMap<IpAddr, usize> = HashMap::new();
     let shape_base = if seq.proxy.is_some() { "proxy-on" } else { "proxy-off" };
     for (i, c) in seq.conns.iter().enumerate() {
@@ -290,7 +291,14 @@ async fn run_seq(seq: &Seq) -> SeqOutcome {
         let peer = end.local;
         let got_bytes = end.bytes_received();
         let served = if c.login { log.count("LoginSuccess") > 0 || log.count("EncryptionRequest") > 0 } else { log.count("StatusResponse") > 0 };
-        end.kill();
+        // the client's socket goes away when this connection has been judged
+        struct KillAtEnd<'a>(&'a TcpEnd);
+        impl Drop for KillAtEnd<'_> {
+            fn drop(&mut self) {
+                self.0.kill();
+            }
+        }
+        let _kill_at_end = KillAtEnd(&end);
         let effective: Option<SocketAddr> = match &c.header {
             Header::NotUsed | Header::V2Local | Header::V1Unknown => Some(peer),
             Header::V1(s) | Header::V2(s) | Header::V1Split(s, _) | Header::V2Split(s, _) => Some(*s),
@@ -334,6 +342,25 @@ async fn run_seq(seq: &Seq) -> SeqOutcome {
                     );
                 } else if !expect_served && got_bytes > 0 {
                     bad(format!("bytes-sent-to-refused-connection/{shape_base}/{hc}"), format!("a refused connection received {got_bytes} protocol bytes"), json!({"index": i}));
+                } else if !expect_served && i % 4 == 1 {
+                    // "is closed": the refused client keeps its side open and goes on sending. A socket
+                    // that was closed answers with a reset and the client's writes start to fail; a
+                    // socket that is merely kept aside takes the bytes for ever
+                    for _ in 0..16 {
+                        end.send(&[0x55u8; 64]);
+                        tokio::time::sleep(Duration::from_millis(40)).await;
+                        if end.write_failed() {
+                            break;
+                        }
+                    }
+                    o.refused_probed += 1;
+                    if !end.write_failed() {
+                        bad(
+                            format!("refused-connection-not-closed/{shape_base}/{hc}"),
+                            "a refused connection was not closed: 640 ms and 1 KiB after the refusal the server's socket still takes the client's bytes".into(),
+                            json!({"index": i, "effective": eff.to_string(), "peer": peer.to_string()}),
+                        );
+                    }
                 }
                 if served {
                     o.served += 1;
@@ -652,6 +679,50 @@ async fn cookie_binding_family(report: &mut Report) {
                 _ => {}
             }
         }
+        // 3. the same cookie as some other issuer holding the secret might write it: naming no address
+        // in particular (0.0.0.0, [::]) or none at all. Bound to nobody is not bound to everybody
+        if pi == 0 && cookie.len() > 32 {
+            let Ok(body) = serde_json::from_slice::<Value>(&cookie[32..]) else { continue };
+            for (who, addr_value) in [("unspecified-ipv4", Some("0.0.0.0:0")), ("unspecified-ipv6", Some("[::]:0")), ("unspecified-ipv4-with-port", Some("0.0.0.0:40000")), ("no-address-field", None)] {
+                let mut j = body.clone();
+                match (addr_value, j.as_object_mut()) {
+                    (Some(a), Some(o)) => {
+                        o.insert("client_addr".into(), json!(a));
+                    }
+                    (None, Some(o)) => {
+                        o.remove("client_addr");
+                    }
+                    _ => {}
+                }
+                let forged = vp_common::refcrypto::sign_cookie(b"cookie-binding-secret", &serde_json::to_vec(&j).expect("json"));
+                let Ok(end) = TcpEnd::connect(addr, None).await else { continue };
+                end.send(&tcp::proxy_v2(neighbour, addr));
+                let mut plan = scripts::plan(
+                    vec![
+                        scripts::send("Handshake", scripts::handshake(3, "bind.example.org", 25565, 770)),
+                        scripts::send("LoginStart", Pkt::LoginStart { name: "Returning".into(), uuid: 5 }),
+                        Act::AwaitPkt { name: "EncryptionRequest", nth: 1 },
+                        Act::Close,
+                        Act::AwaitClose,
+                    ],
+                    false,
+                    [9u8; 16],
+                    Duration::from_secs(5),
+                );
+                plan.cookies = vec![(AUTH_KEY.to_string(), Some(forged))];
+                let log = Client::new(&end, plan).run().await;
+                end.kill();
+                let flag = log.enc_request.as_ref().map(|e| e.2);
+                report.eval(Some(&format!("cookie-binding/{who}")));
+                report.count("cookies naming no address in particular presented", 1);
+                let detail = json!({"cookie_client_addr": addr_value, "presented_from": neighbour.to_string(), "should_authenticate": flag, "clientbound": log.names()});
+                match flag {
+                    Some(false) => report.violation(&format!("cookie-not-bound-to-announced-source/{who}"), &format!("a correctly signed cookie whose client address is {addr_value:?} was accepted from {neighbour} without authentication"), detail),
+                    None => report.inconclusive(&format!("cookie binding/{who}: the connection ended before the Encryption Request")),
+                    _ => {}
+                }
+            }
+        }
     }
     direct.stop.cancel();
 }
@@ -676,6 +747,7 @@ pub async fn run(cli: &Cli, report: &mut Report) {
         report.sample(json!({"sequence": seq.name, "first_connections": o.trace.iter().take(12).collect::<Vec<_>>(), "tail": o.trace.last()}));
         report.count("connections served", o.served as u64);
         report.count("connections refused by the limiter (EOF without a byte)", o.refused as u64);
+        report.count("refused connections that went on sending and saw their writes fail (socket closed)", o.refused_probed as u64);
         report.count("connections with missing / malformed / disabled-version header", o.unserved_invalid as u64);
         report.count("client addresses seen by services or cookies and compared", o.addresses_checked as u64);
         for why in o.inconclusive {
